@@ -242,7 +242,7 @@ CLAIMED = {
         text='Allocation-effect analysis over the monomorphic instance graph of the compiled program (calls, drops, reified fn pointers; unwind edges excluded): '
              'from each of ~277 read-only roots selected by signature rule (borrowed constructors, accessors, parts, segment iterators, base, casts) no allocator entry, '
              'virtual/indirect call or opaque non-core callee is reachable — for inputs of any size, since the analysis is over code. Zero-copy: the only unsafe '
-             'operations on those paths are reference-preserving casts, so returned references are sub-slices of the input by lifetimes. Positive control: normalized_segments must be seen to allocate.',
+             'operations on those paths are reference-preserving casts, so returned references are sub-slices of the input by lifetimes. Order and non-overlap of scheme, authority, path, query and fragment: every range an accessor or a decomposition returns is the span the RFC grammar gives that component (the 42 scanner obligations of C02, run here as well), and in every word of the marked grammar the five spans come in that order. Positive control: normalized_segments must be seen to allocate.',
         design_ref='DESIGN.md §4 C20, Engine C (C-alloc)',
         note='Assumes crate core has no allocator and allocation happens only through __rust_alloc*/exchange_malloc. Order/non-overlap of the five components is the C02 obligation (not re-decided here).',
         technique='interprocedural effect analysis on the monomorphic call graph (static analysis)',
